@@ -1,8 +1,10 @@
 //go:build verif
 
-// C17 — transactional reads return the newest committed value visible at their
-// timestamp.  Oracle: Percolator reference model (internal/perco); every Get and
-// Scan issued through raftstore/kv.Apply must equal the model's read rule.
+// C18 — a distributed transaction's outcome is unique, final and conflict-free.
+// Adversarial orderings (duplicates, late requests, commit-after-rollback,
+// rollback-after-commit, CheckTxnStatus after expiry, overlapping writers) are
+// executed through raftstore/kv.Apply and compared with the Percolator reference
+// model in internal/perco.
 package c18
 
 import (
@@ -15,15 +17,9 @@ import (
 
 func TestMain(m *testing.M) { pbt.RunMain(m) }
 
-func profile() perco.Profile {
-	return perco.Profile{MaxSteps: 26, WRead: 2, WMaint: 2, WDup: 5, WCheck: 3,
-		Excl: perco.Excl{R1: pbt.Open("C17-R1"),
-			R4: pbt.Open("C17-R4"), R5: pbt.Open("C18-R5"), R6: pbt.Open("C19-R6"), R7: pbt.Open("C18-R7") || pbt.Open("C19-R7"),
-			R8: pbt.Open("C17-R8"), F1: pbt.Open("C19-F1"), R3: pbt.Open("C19-R3"), R20: pbt.Open("C19-R20"), F2: pbt.Open("C17-F2"),
-		}}
+func gen(t *rapid.T) perco.GCase {
+	return perco.Generate(t, perco.Profile{MaxSteps: 26, WRead: 2, WMaint: 2, WDup: 5, WCheck: 3, Excl: perco.OpenExclusions()})
 }
-
-func gen(t *rapid.T) perco.GCase { return perco.Generate(t, profile()) }
 
 func run(c perco.GCase, r *pbt.Rec) error {
 	r.Excluded(c.Excl)
@@ -32,8 +28,13 @@ func run(c perco.GCase, r *pbt.Rec) error {
 
 func TestCheck(t *testing.T) {
 	s := &pbt.Suite{ID: "C18", Level: "exploration",
-		Rule: "TODO",
+		Rule: "Same history machine as C17 with an adversarial mix (verbatim re-sends of earlier requests, late prewrites, commits/rollbacks/resolves of arbitrary key subsets in any order, CheckTxnStatus around expiry with and without rollback-if-not-exist, up to 5 transactions contending for 1-4 keys). Oracles: (1) a Commit/ResolveLock-commit that names a key the transaction already rolled back returns a key error; (2) any request the model classifies as changing nothing (repeat of an applied request, rollback after commit, commit after rollback, commit without lock, status check without effect) leaves locks, min-commit-ts, write records and rollback records of the whole DB unchanged (full internal-iterator dump before/after; plus prewritten data for verbatim re-sends); (3) after every step the set of committed write records (key,kind,start,commit) read from the DB equals the model's, so a refused/rolled-back transaction leaves no write and a committed one is never undone; (4) no key ever has two committed put/delete records with overlapping [start,commit]; (5) a prewrite must be refused when the key is locked by another transaction, when a newer committed put/delete overlaps, or when the transaction is already decided on the key. Non-trivial = the history contains at least one adversarial ordering whose second request reached the engine (labels adv:*); distinct by case content.",
+		Assumptions: []string{
+			"'once any key is rolled back, committing fails' is judged per key: a Commit fails iff it names a rolled-back key; cross-key atomicity is the client protocol's job (primary first), no single-key state machine can refuse Commit(a) because b was rolled back",
+			"batch requests are applied key by key in request order up to the first key error (what kv.Apply does and its callers observe)",
+			"where the properties do not fix a response (prewrite above a foreign rollback/lock-only record, commit of a never-prewritten key, BatchRollback/CheckTxnStatus error details) the model follows the observed response and only the resulting state is compared",
+		},
 	}
-	pbt.Add(s, &pbt.Spec[perco.GCase]{Name: "outcomes", Gen: gen, Run: run, Quick: 4800, Thorough: 320000, Shards: 16})
+	pbt.Add(s, &pbt.Spec[perco.GCase]{Name: "outcomes", Gen: gen, Run: run, Quick: 1200, Thorough: 48000, Shards: 16})
 	s.Main(t)
 }
